@@ -267,6 +267,26 @@ def run(ctx):
         res.add(Finding('C12', 'C12.a', 'R-LOCKSET', flush.file, flush.qualname, flush.node.lineno, 'buffer swap',
                         'the flusher does not take the old list and install the new one within a single lock region: an operation appended in '
                         'between is lost or applied twice'))
+    # who takes operations out of the buffer: the flusher's swap, nobody else. Producers append; a method that empties / replaces / shortens
+    # the shared list drops requested operations of every recording that is pending (the buffer is one queue for all of them)
+    takers = []
+    for c_ in (cas, rec):
+        for m_ in c_.methods.values():
+            if m_ in flusher_side or m_.name == '__init__':
+                continue
+            for n in ast.walk(m_.node):
+                hit = (isinstance(n, (ast.Assign, ast.AugAssign, ast.Delete)) and
+                       any(self_attr(t_) in shared or (isinstance(t_, ast.Subscript) and self_attr(t_.value) in shared)
+                           for t_ in (n.targets if not isinstance(n, ast.AugAssign) else [n.target]))) or \
+                      (isinstance(n, ast.Call) and isinstance(n.func, ast.Attribute) and self_attr(n.func.value) in shared and
+                       n.func.attr in ('clear', 'pop', 'remove', 'popleft', '__delitem__', 'sort', 'reverse'))
+                if hit:
+                    takers.append((m_, n))
+    ca.instance('operations leave the buffer only through the flusher\'s swap', cas.name, not takers)
+    for m_, n in takers[:1]:
+        res.add(Finding('C12', 'C12.a', 'R-LOCKSET', m_.file, m_.qualname, n.lineno, norm(n)[:80],
+                        '%s removes / replaces pending operations itself (`%s`): the buffer is one queue for every recording in flight, so writes and '
+                        'saves that were requested for other recordings are dropped without being applied' % (m_.qualname, norm(n)[:60])))
     # ---------------- C12.b
     cb.instance('calls made while the lock is held: none into wrapped storage / buffered operations', cas.name, not locked_calls)
     cb.evaluations += sum(len(d.events) for d in doms.values())
